@@ -247,4 +247,239 @@ theorem no_panic_codes (s : Text) :
       simp [*, bind, Res.bind]
   · unfold F30.parse Res.ofOption; cases parseDateYYMMDD s <;> simp
 
+/-! ### Party fields option A (52A–58A), C (52C, 56C, 57C), D (52D, 54D–58D)
+
+The models reproduce their input — a parsed value serialises to exactly the text that was read (so the round trip is
+stable and the text a fixed point, C02), they never panic (C07), and option C accepts exactly its documented format. -/
+
+theorem parseBic_value (t b : Text) (h : parseBic t = .ok b) : b = t := by
+  unfold parseBic at h
+  repeat (split at h; · cases h)
+  cases h; rfl
+
+theorem parseBic_no_panic (t : Text) : parseBic t ≠ .panic := by
+  unfold parseBic
+  repeat (split; · simp)
+  simp
+
+theorem pid_no_panic (t : Text) : parsePartyIdentifier t ≠ .panic := by
+  unfold parsePartyIdentifier pidSpecial pidCoded pidPlain
+  repeat' split
+  all_goals simp
+
+/-- the party identifier that is returned is the line without its leading slash -/
+theorem pid_value (l p : Text) (h : parsePartyIdentifier l = .ok (some p)) : l = '/' :: p := by
+  unfold parsePartyIdentifier at h
+  split at h
+  · rename_i special
+    unfold pidSpecial at h
+    split at h
+    · split at h
+      · cases h; rfl
+      · cases h
+    · cases h
+  · rename_i rem _
+    split at h
+    · rename_i pos hf
+      have hs := (findChar_split hf).1
+      unfold pidCoded at h
+      split at h
+      · split at h
+        · cases h
+        · split at h
+          · cases h; rw [← hs]
+          · cases h
+      · cases h
+    · unfold pidPlain at h
+      split at h
+      · split at h
+        · cases h; rfl
+        · cases h
+      · cases h
+  · cases h
+
+theorem pid_none (l : Text) (h : parsePartyIdentifier l = .ok none) : l.head? ≠ some '/' := by
+  intro hh
+  cases l with
+  | nil => cases hh
+  | cons a r =>
+    simp only [List.head?_cons, Option.some.injEq] at hh
+    subst hh
+    unfold parsePartyIdentifier pidSpecial pidCoded pidPlain at h
+    repeat' split at h
+    all_goals first | cases h | (rename_i hne; exact absurd rfl (hne _ _)) | skip
+    all_goals simp_all
+
+/-- **Option A reproduces its input**: what was parsed serialises to exactly the text that was read. -/
+theorem optA_reproduces (s : Text) (v : OptA) (h : OptA.parse s = .ok v) : OptA.ser v = s := by
+  unfold OptA.parse at h
+  have hj := joinNl_splitNl s
+  split at h
+  · cases h
+  · rename_i l0 rest hsp
+    rw [hsp] at hj
+    split at h
+    · cases h
+    · cases h
+    · rename_i p hp
+      split at h
+      · cases h
+      · rename_i b rest'
+        split at h
+        · rename_i bic hb
+          split at h
+          · cases h
+            rename_i hre
+            have hr' : rest' = [] := by simpa using hre
+            subst hr'
+            have := pid_value l0 p hp
+            have hb' := parseBic_value b bic hb
+            subst hb'
+            rw [← hj, this]
+            simp [OptA.ser, joinNl]
+          · cases h
+        · cases h
+        · cases h
+    · rename_i hp
+      split at h
+      · rename_i bic hb
+        split at h
+        · cases h
+          rename_i hre
+          have hr' : rest = [] := by simpa using hre
+          subst hr'
+          have hb' := parseBic_value l0 bic hb
+          subst hb'
+          rw [← hj]
+          simp [OptA.ser, joinNl]
+        · cases h
+      · cases h
+      · cases h
+
+theorem optA_no_panic (s : Text) : OptA.parse s ≠ .panic := by
+  unfold OptA.parse
+  split
+  · simp
+  · split
+    · simp
+    · rename_i hp; exact absurd hp (pid_no_panic _)
+    · split
+      · simp
+      · split
+        · split <;> simp
+        · simp
+        · rename_i hb; exact absurd hb (parseBic_no_panic _)
+    · split
+      · split <;> simp
+      · simp
+      · rename_i hb; exact absurd hb (parseBic_no_panic _)
+
+/-- option C `/34x` -/
+def Doc.PartyOnly (s : Text) : Prop := ∃ id, s = '/' :: id ∧ Doc.XText 34 id
+
+theorem accepts_iff_optC (s : Text) : (OptC.parse s).isOk = true ↔ Doc.PartyOnly s := by
+  unfold OptC.parse Doc.PartyOnly
+  constructor
+  · intro h
+    split at h
+    · rename_i id
+      split at h
+      · cases h
+      · rename_i hlen
+        split at h
+        · rename_i hx
+          simp only [Bool.or_eq_true, List.isEmpty_iff, decide_eq_true_eq, not_or, Nat.not_lt] at hlen
+          refine ⟨id, rfl, ?_⟩
+          have hne : id ≠ [] := hlen.1
+          have := xtext_of_checks 34 id hlen.2 hne hx
+          exact this
+        · cases h
+    · cases h
+  · rintro ⟨id, rfl, hx⟩
+    obtain ⟨h1, h2⟩ := checks_of_xtext 34 id hx
+    have hne : id ≠ [] := by
+      intro he; subst he; have := hx.1; simp at this
+    simp [hne, h2, Nat.not_lt.mpr h1, Res.isOk]
+
+theorem optC_reproduces (s id : Text) (h : OptC.parse s = .ok id) : OptC.ser id = s := by
+  unfold OptC.parse at h
+  split at h
+  · split at h
+    · cases h
+    · split at h
+      · cases h; rfl
+      · cases h
+  · cases h
+
+theorem optC_no_panic (s : Text) : OptC.parse s ≠ .panic := by
+  unfold OptC.parse
+  repeat' split
+  all_goals simp
+
+theorem nameAddr_value (ls r : List Text) (k : Nat) (h : parseNameAndAddress ls k = .ok r) : r = ls.drop k := by
+  unfold parseNameAndAddress at h
+  simp only at h
+  repeat (split at h; · cases h)
+  cases h; rfl
+
+theorem nameAddr_no_panic (ls : List Text) (k : Nat) : parseNameAndAddress ls k ≠ .panic := by
+  unfold parseNameAndAddress
+  simp only
+  repeat (split; · simp)
+  simp
+
+/-- **Option D reproduces its input.** -/
+theorem optD_reproduces (s : Text) (v : OptD) (h : OptD.parse s = .ok v) : OptD.ser v = s := by
+  unfold OptD.parse at h
+  have hj := joinNl_splitNl s
+  split at h
+  · cases h
+  · rename_i l0 rest hsp
+    rw [hsp] at hj
+    split at h
+    · cases h
+    · cases h
+    · rename_i p hp
+      split at h
+      · rename_i ls hl
+        cases h
+        have := nameAddr_value _ _ _ hl
+        simp only [List.drop_succ_cons, List.drop_zero] at this
+        subst this
+        rw [← hj, pid_value l0 p hp]
+        rfl
+      · cases h
+      · cases h
+    · split at h
+      · rename_i ls hl
+        cases h
+        have := nameAddr_value _ _ _ hl
+        simp only [List.drop_zero] at this
+        subst this
+        rw [← hj]
+        rfl
+      · cases h
+      · cases h
+
+theorem optD_no_panic (s : Text) : OptD.parse s ≠ .panic := by
+  unfold OptD.parse
+  split
+  · simp
+  · split
+    · simp
+    · rename_i hp; exact absurd hp (pid_no_panic _)
+    · split
+      · simp
+      · simp
+      · rename_i hb; exact absurd hb (nameAddr_no_panic _ _)
+    · split
+      · simp
+      · simp
+      · rename_i hb; exact absurd hb (nameAddr_no_panic _ _)
+
+/-- Non-vacuity -/
+example : OptA.parse "/C/12345678\nDEUTDEFFXXX".toList = .ok ⟨some "C/12345678".toList, "DEUTDEFFXXX".toList⟩ := by decide
+example : OptD.parse "//FW021000021\nBANK NAME\nCITY".toList = .ok ⟨some "/FW021000021".toList, ["BANK NAME".toList, "CITY".toList]⟩ := by decide
+example : OptA.parse "/\nDEUTDEFF".toList = .err := by decide
+
 end SwiftMT.Props.C05
